@@ -290,6 +290,38 @@ def run(prop, tier, seed):
                 for (a, b) in ((x0, x1), (x0 - hx, x1), (x0, x1 + hx)):
                     ref += poly_int_sq(pc, 0.0, 1.0) * float(sr.h12_unit(poly_affine([float(c) for c in qc], a - side0, b - a)))
                 recs.append({"cls": "poly-exact:space:N%d" % N, "dev": jd.dev(v, ref, 1e-8 * abs(ref)), "value": repr(v), "ref": repr(ref), "elem": list(k), "curve": "UnitSquare"})
+    # different orders for the four quadratures (as the driver passes them, e.g. 5355): each routine must use *its* order.
+    # residual t^2 * q(x_hat): the time indicator is exact iff the H^{1/4} order is >= 5, the space one iff the H^{1/2} order
+    # covers deg q; with the orders crossed one of them loses exactness.
+    with contextlib.redirect_stdout(io.StringIO()):
+        for orders, pc, qc in (((9, 9, 9, 3), [0.5, 0.0, 1.0], [F(1), F(2)]), ((9, 9, 3, 9), [1.0, 1.0], [F(1), F(-1), F(0), F(1)])):
+            est = ErrorEstimator(mesh, N_poly=orders)
+            elems_ = list(mesh.leaf_elements)
+            keys_ = [ml.leaf_tuple(e, lay) for e in elems_]
+            S_ = set(keys_)
+            for e, k in zip(elems_, keys_):
+                U = lay.U
+                if (k[2] // U) != ((k[3] - 1) // U) or k[2] % U == 0 or k[3] % U == 0:
+                    continue
+                side0 = (k[2] // U) * 1.0
+                res_poly = (lambda qc, pc, side0: lambda t, x_hat, gamma: sum(c * np.asarray(t, float) ** j for j, c in enumerate(pc)) *
+                            sum(float(c) * (np.asarray(x_hat, float) - side0) ** j for j, c in enumerate(qc)))(qc, pc, side0)
+                x0, x1 = map(float, e.space_interval)
+                hx = x1 - x0
+                vs = est.sobolev_space(e, res_poly)[0]
+                refs = sum(poly_int_sq(pc, 0.0, 1.0) * float(sr.h12_unit(poly_affine([float(c) for c in qc], a - side0, b - a)))
+                           for (a, b) in ((x0, x1), (x0 - hx, x1), (x0, x1 + hx)))
+                recs.append({"cls": "poly-exact:space:orders%s" % "".join(map(str, orders)), "dev": jd.dev(vs, refs, 1e-8 * abs(refs)), "elem": list(k), "curve": "UnitSquare"})
+                # time indicator: e alone (single slab mesh: no time neighbours): int q^2 dx * |p|^2_{H^{1/4}(0,1)}
+                vt = est.sobolev_time(e, res_poly)[0]
+                sq = {}
+                for i, u in enumerate(qc):
+                    for j, v in enumerate(qc):
+                        sq[i + j] = sq.get(i + j, F(0)) + u * v
+                A_, B_ = F(x0 - side0), F(x1 - side0)
+                intq2 = float(sum(v * (B_ ** (m + 1) - A_ ** (m + 1)) / (m + 1) for m, v in sq.items()))
+                reft = intq2 * sr.h14(poly_affine(pc, 0.0, 1.0), 1.0)
+                recs.append({"cls": "poly-exact:time:orders%s" % "".join(map(str, orders)), "dev": jd.dev(vt, reft, 1e-8 * abs(reft)), "elem": list(k), "curve": "UnitSquare"})
     # rotation of curve and residual by a quarter turn permutes the indicators (UnitSquare, Circle)
     for name, shift_roots in (("UnitSquare", 1), ("Circle", None)):
         lay = ParamLayout(name, 1, 12, 1.0)
